@@ -9,6 +9,8 @@ CONSTANTS
   WM = 12
   ConstructSlots <- Slots3
   Unbounded = FALSE
+  Canon = FALSE
+  LinK = 0
   ViewIds <- Views2
   Ops <- AllOps
 INVARIANTS Refines NoAlias NoUseAfterFree NoDoubleFree NoLeak ViewsValid ViewsSeeOwner
